@@ -25,7 +25,7 @@ theorem validated_is_live {r : Router} {L : List LiveT} (hreg : Reg r.root L) {t
     obtain ⟨lt, hlt, _, _, _, hok⟩ := hreg.sound e.2 i (parse_wf hp e he) hf
     exact ⟨lt, hlt, by rw [← hok.1, ht]⟩
 
-theorem inv_step {r : Router} {L : List LiveT} (h : RInv r L) (c : Call) (hc : c.distinct) :
+theorem inv_step {r : Router} {L : List LiveT} (h : RInv r L) (c : Call) :
     RInv (r.step c) (liveAfter r L c) := by
   cases c with
   | constraint name ty =>
@@ -34,7 +34,7 @@ theorem inv_step {r : Router} {L : List LiveT} (h : RInv r L) (c : Call) (hc : c
     · split at heq
       · cases heq
       · injection heq with heq; subst heq
-        exact ⟨h.reg, ⟨h.rc.single, h.rc.multi, h.rc.sep, h.rc.distinct⟩⟩
+        exact ⟨h.reg, ⟨h.rc.single, h.rc.multi, h.rc.sep⟩⟩
     · exact h
   | insert t d =>
     simp only [Router.step, liveAfter]
@@ -43,7 +43,7 @@ theorem inv_step {r : Router} {L : List LiveT} (h : RInv r L) (c : Call) (hc : c
     | ok r' =>
       obtain ⟨ts, hp, _, _, _⟩ := (Router.insert_ok_iff r r' t d).1 hi
       simp only [hp]
-      exact ⟨Reg.insert h.reg hi ts hp (hc ts hp), RcInv.insert h.reg h.rc hi ts hp (hc ts hp)⟩
+      exact ⟨Reg.insert h.reg hi ts hp, RcInv.insert h.reg h.rc hi ts hp⟩
   | delete t =>
     simp only [Router.step, liveAfter]
     cases hp : parseTemplates t with
@@ -74,27 +74,23 @@ theorem inv_step {r : Router} {L : List LiveT} (h : RInv r L) (c : Call) (hc : c
             simp only [this, ite_true]
         rw [this]; exact h
 
-theorem runLive_inv : ∀ (calls : List Call) (r : Router) (L : List LiveT), RInv r L → (∀ c ∈ calls, c.distinct) →
+theorem runLive_inv : ∀ (calls : List Call) (r : Router) (L : List LiveT), RInv r L →
     RInv (runLive r L calls).1 (runLive r L calls).2
-  | [], _, _, h, _ => h
-  | c :: cs, r, L, h, hd => by
+  | [], _, _, h => h
+  | c :: cs, r, L, h => by
     simp only [runLive]
-    exact runLive_inv cs _ _ (inv_step h c (hd c (by simp))) (fun c' hc' => hd c' (by simp [hc']))
+    exact runLive_inv cs _ _ (inv_step h c)
 
 theorem Live.rinv {r : Router} {L : List LiveT} (h : Live r L) : RInv r L := by
-  obtain ⟨b, calls, hd, he⟩ := h
-  have := runLive_inv calls { registry := b } [] ⟨Reg.empty, RcInv.empty b⟩ hd
+  obtain ⟨b, calls, he⟩ := h
+  have := runLive_inv calls { registry := b } [] ⟨Reg.empty, RcInv.empty b⟩
   rw [← he] at this
   exact this
 
-theorem Live.step {r : Router} {L : List LiveT} (h : Live r L) (c : Call) (hc : c.distinct) :
+theorem Live.step {r : Router} {L : List LiveT} (h : Live r L) (c : Call) :
     Live (r.step c) (liveAfter r L c) := by
-  obtain ⟨b, calls, hd, he⟩ := h
-  refine ⟨b, calls ++ [c], ?_, ?_⟩
-  · intro c' hc'
-    rcases List.mem_append.1 hc' with h1 | h1
-    · exact hd c' h1
-    · simp only [List.mem_singleton] at h1; subst h1; exact hc
+  obtain ⟨b, calls, he⟩ := h
+  refine ⟨b, calls ++ [c], ?_⟩
   · have key : ∀ (cs : List Call) (r0 : Router) (L0 : List LiveT) (c : Call),
         runLive r0 L0 (cs ++ [c]) = ((runLive r0 L0 cs).1.step c, liveAfter (runLive r0 L0 cs).1 (runLive r0 L0 cs).2 c) := by
       intro cs
@@ -111,7 +107,7 @@ theorem delete_live_api {r : Router} {L : List LiveT} (h : Live r L) (lt : LiveT
   have hne : lt.exps ≠ [] := parse_nonempty (hinv.reg.parsed lt hlt)
   obtain ⟨h1, _, _⟩ := delete_live hinv.reg hinv.rc lt hlt hne
   refine ⟨h1, ?_⟩
-  have := h.step (.delete lt.template) trivial
+  have := h.step (.delete lt.template)
   -- the live set after the call is the filtered one
   have hp := hinv.reg.parsed lt hlt
   have hm : mismatchOf r.root lt.template lt.exps = none := by
